@@ -49,7 +49,7 @@ def initWorld (N M : Nat) : World Int :=
       let n := if c < 2 then N else M
       -- a container with inline capacity 0 has no in-object buffer: its "inline" data pointer is null (one shared empty block)
       { N := n, inl := if n = 0 then nullBlk else c, cap := 0, size := 0, data := if n = 0 then nullBlk else c, alloc := 0 },
-    owner := fun _ => 0, live := [], next := 4, ntmp := tmpBase, faults := [], trace := [], ub := [] }
+    owner := fun _ => 0, live := [], next := heapBase, ntmp := tmpBase, faults := [], trace := [], ub := [] }
 
 def initSys (N M : Nat) : Sys := { w := initWorld N M, alive := [false, false, false, false] }
 
@@ -146,12 +146,13 @@ def Sys.step (ac : ApiCfg) (s : Sys) (op : Op) (faults : List Nat) : Res Sys Out
   | .thrown e w => .thrown e { s1 with w := w }
 
 /-! ### printing (must match harness/harness.cpp byte for byte) -/
-def blkStr (b : Nat) : String := if b ≥ tmpBase then "T" else toString b
+/-- display: heap blocks are numbered 4, 5, 6, … in allocation order (as the harness numbers them) -/
+def blkStr (b : Nat) : String := if isTmp b then "T" else if isHeap b then toString ((b - heapBase) / 2 + 4) else toString b
 
 def evStr : Ev → String
   | .cctor b i => s!"cc{blkStr b}.{i}" | .mctor b i => s!"mc{blkStr b}.{i}" | .vctor b i => s!"vc{blkStr b}.{i}"
   | .casg b i => s!"ca{blkStr b}.{i}" | .masg b i => s!"ma{blkStr b}.{i}" | .dtor b i => s!"d{blkStr b}.{i}"
-  | .alloc b n a => s!"A{b}:{n}@{a}" | .dealloc b n a => s!"F{b}:{n}@{a}"
+  | .alloc b n a => s!"A{blkStr b}:{n}@{a}" | .dealloc b n a => s!"F{blkStr b}:{n}@{a}"
   | .deref s p => s!"*{s}.{p}" | .incr s p => s!"+{s}.{p}"
 
 def valStr : Slot Int → String
@@ -174,7 +175,7 @@ def vecStr (s : Sys) (x : Nat) : String :=
   let n := names.getD x "?"
   if s.isAlive x then
     let v := s.w.hdr x
-    let buf := if v.data = v.inl then "I" else s!"H{v.data}"
+    let buf := if v.data = v.inl then "I" else s!"H{blkStr v.data}"
     s!"{n}={v.size}/{v.cap}/{buf}/{v.alloc}"
   else s!"{n}=-"
 
@@ -188,8 +189,7 @@ def valsStr (s : Sys) (x : Nat) : String :=
 def countObjs (l : List (Slot Int)) : Nat := (l.filter fun s => !s.isRaw).length
 
 def liveObjs (w : World Int) : Nat :=
-  ((List.range w.next).map fun b => countObjs (w.mem b)).sum +
-  ((List.range (w.ntmp - tmpBase)).map fun k => countObjs (w.mem (tmpBase + k))).sum
+  ((List.range (max w.next w.ntmp)).map fun b => countObjs (w.mem b)).sum
 
 def obsLine (s : Sys) (t0 : Nat) (out : String) (exc : String) : String :=
   let st := " ".intercalate ((List.range 4).map (vecStr s))
